@@ -790,6 +790,11 @@ func verifyFunc(w *World, sp *Specs, fn *ssa.Function, spec *FuncSpec, safety bo
 	}()
 	st := x.initialState()
 	if spec != nil {
+		for _, pk := range spec.InitPkgs {
+			x.runInit(st, pk)
+		}
+	}
+	if spec != nil {
 		env := x.selfEnv(st)
 		for _, c := range spec.Requires {
 			x.assumeIn(st, x.evalBool(env, c.E))
@@ -931,4 +936,38 @@ func symbolsOf(t *Term, out map[string]bool) {
 	for _, a := range t.Args {
 		symbolsOf(a, out)
 	}
+}
+
+// runInit executes a package initialiser symbolically on st (initialisers of imported packages are skipped): the function is then
+// verified in the state "this package has been initialised". That the initialised tables are not modified later is a separate
+// frame obligation.
+func (x *Exec) runInit(st *State, pkgRef string) {
+	var sp *ssa.Package
+	for path, p := range x.w.SSAPkg {
+		if path == pkgRef || shortPkg(path) == pkgRef {
+			sp = p
+		}
+	}
+	if sp == nil {
+		panic("initstate: no package " + pkgRef)
+	}
+	init := sp.Func("init")
+	if init == nil || init.Blocks == nil {
+		return
+	}
+	x.inInit = true
+	x.initRan[sp.Pkg.Path()] = true
+	x.pushFrame(st, &FuncV{Fn: init}, nil, nil)
+	for len(st.frames) > 1 && !st.dead {
+		forks, _ := x.step(st)
+		if len(forks) > 0 {
+			panic("initstate: package initialiser of " + pkgRef + " branches on symbolic data")
+		}
+		x.budget--
+		if x.budget < 0 {
+			panic("initstate: initialiser too large")
+		}
+	}
+	x.inInit = false
+	x.note("assumption: package %s is initialised and the tables its initialiser builds are not modified afterwards (see the frame obligation next to the contract)", shortPkg(sp.Pkg.Path()))
 }
